@@ -120,6 +120,34 @@ def register(op):
         fresh()
         return res
 
+    @op("cx_dlc_direct")
+    def _(a):
+        """is_domainlevel_complement against its definition: every pair joins a domain with its complement (`x is ~y`)"""
+        seq, struct = a
+        fresh()
+        try:
+            ds = []
+            for x in seq:
+                ds.append("+" if x == "+" else bc.DomainS(x, 6))
+            c = bc.ComplexS(ds, list(struct), name="V")
+        except (SingletonError, bc.ObjectInitError):
+            fresh()
+            return ["refused"]
+        got = c.is_domainlevel_complement
+        want = True
+        for si, row in enumerate(c.pair_table):
+            for di, p in enumerate(row):
+                if p is not None:
+                    x, y = c.get_domain((si, di)), c.get_domain(tuple(p))
+                    try:
+                        if x is not ~y:
+                            want = False
+                    except SingletonError:
+                        want = None
+        del c, ds
+        fresh()
+        return ["ok", got, want] if want is not None else ["refused"]
+
     @op("c03_fresh_compare")
     def _(a):
         """the direct statement of C03 on the implementation: after every step, every view of the object equals the
